@@ -35,9 +35,61 @@ def shape(t):
     return repr(t)
 
 
+def load_ref():
+    return json.load(open(os.path.join(VERIF, 'reference',
+                                       'protocol_core.json')))
+
+
+def check_boundaries(report, db, P, ref, rid='R07.6', only=None):
+    """Layout changes the pre-release changelogs date to one development
+    version: the field has the old shape in every supported version published
+    before it and the new shape from it on."""
+    R = report.rule(rid, 'dated layout changes: a field changes its wire '
+                    'shape at the development version the changelog names, '
+                    'not a version earlier or later')
+    n = 0
+    for b in ref.get('boundaries', []):
+        if only is not None and not only(b):
+            continue
+        spec = ref['packets'][b['packet']]
+        mod, qn = spec['cls'].split(':')
+        ci = db.get_class(mod, qn)
+        cv = ClassVal(ci)
+        if b['protocol'] not in P.index:
+            raise AnalysisError('reference boundary %d is not a known '
+                                'protocol version' % b['protocol'])
+        at = P.index[b['protocol']]
+        bad = []
+        for v in P.supported:
+            t = P.table(spec['direction'], spec['state'], v)
+            if isinstance(t, Raises) or cv not in t:
+                continue
+            d = P.definition(cv, v)
+            if not isinstance(d, list):
+                continue
+            lay = [shape(ty) for e in d for k, ty in e.items()]
+            want = b['since'] if P.index[v] >= at else b['before']
+            n += 1
+            got = lay[b['field']] if b['field'] < len(lay) else None
+            if got != want:
+                bad.append((v, got, want))
+            else:
+                report.ok(R)
+        if bad:
+            fi = db.find_method(ci, 'get_definition')
+            v, got, want = bad[0]
+            report.violation(
+                R, 'boundary:%s:%d' % (b['packet'], b['protocol']), ci.path,
+                fi.node if fi is not None else ci.node, ci.qualname,
+                '%s: field %d is %s in %s, the documentation says %s (%s); '
+                '%d supported version(s) differ' % (
+                    b['packet'], b['field'], got, P.vname(v), want,
+                    b['source'], len(bad)))
+    return n
+
+
 def run(report, db, tier):
-    ref = json.load(open(os.path.join(VERIF, 'reference',
-                                      'protocol_core.json')))
+    ref = load_ref()
     report.explanation = (
         'For each release the README lists and each core packet, the folded '
         'registration, id and field layout (reduced to wire shapes) are '
@@ -149,6 +201,35 @@ def run(report, db, tier):
     # a core packet is *decoded* by its published id only if no other class
     # registered in the same table of that release claims the id too (the
     # reactor keeps one class per id)
+    # a layout is a function of the version: get_definition / get_id of the
+    # core classes change no object that outlives the call
+    from .. import shared
+    from ..callgraph import CallGraph
+    R7 = report.rule('R07.7', 'the layout of a core packet depends on the '
+                     'version alone: get_definition / get_id change no '
+                     'module- or class-level object')
+    cgx = CallGraph(db)
+    fns = []
+    for key, spec in sorted(ref['packets'].items()):
+        mod, qn = spec['cls'].split(':')
+        ci = db.get_class(mod, qn)
+        for nm in ('get_definition', 'get_id'):
+            fi = db.find_method(ci, nm)
+            if fi is not None:
+                for g in [fi] + sorted(
+                        (x for x in cgx.reachable([fi]) if x is not fi
+                         and x.module.name.startswith(
+                             'minecraft.networking.packets')),
+                        key=lambda f: (f.path, f.lineno)):
+                    if g not in fns:
+                        fns.append(g)
+    nf = shared.pure_of_shared_state(
+        report, R7, db, fns, 'layout / id functions of the core packets',
+        'the layout one version gets now depends on which versions were '
+        'asked for before in the same process')
+    report.floor('core layout functions checked for purity', nf, 15)
+    # (check_boundaries -- layout changes dated to a development version --
+    # is not run here: C07 quantifies over releases only; C11 runs it)
     R5 = report.rule('R07.5', 'in every README release, no other registered '
                      'class shares the published id of a core packet')
     n_tables = 0
